@@ -196,7 +196,18 @@ fn get_factor(
                 co2: vv[2],
             }
         })
-        .or_else(|| components.get_meta_rennren(meta));
+        .or_else(|| {
+            // Datos desde metadatos
+            components.get_meta(meta).map(|v| {
+                v.parse::<RenNrenCo2>().unwrap_or_else(|_| {
+                    eprintln!(
+                        "ERROR: factor de paso incorrecto en metadatos \"{}: {}\"",
+                        meta, v
+                    );
+                    exit(exitcode::DATAERR);
+                })
+            })
+        });
     if let Some(factor) = factor {
         components.set_meta(
             meta,
